@@ -262,4 +262,60 @@ theorem eval_lastIsBranch (E : Env σ) : ∀ {s st g st'}, Eval E s st g st' →
   | cont => intro _; simp
   | _ => intro hr; simp [lastIsBranch] at hr
 
+/-! ### Erasing calls that do nothing (the inserted `yield(site)` statements of C02) -/
+
+def eraseSimple (isY : Nat → Bool) : Simple → Simple
+  | .call f => if isY f then .none else .call f
+  | p => p
+
+/-- remove every call statement selected by `isY` -/
+def eraseCalls (isY : Nat → Bool) : Stmt → Stmt
+  | .call f => if isY f then .skip else .call f
+  | .seq s t => .seq (eraseCalls isY s) (eraseCalls isY t)
+  | .ite c t e => .ite c (eraseCalls isY t) (eraseCalls isY e)
+  | .loop l c p b => .loop l c (eraseSimple isY p) (eraseCalls isY b)
+  | .sw l b => .sw l (eraseCalls isY b)
+  | .block s => .block (eraseCalls isY s)
+  | s => s
+
+theorem evalSimple_erase (E : Env σ) (isY : Nat → Bool) (hY : ∀ f st, isY f = true → E.call f st = st) (p : Simple) (st : σ) :
+    evalSimple E (eraseSimple isY p) st = evalSimple E p st := by
+  cases p with
+  | none => rfl
+  | act a => rfl
+  | call f =>
+    simp only [eraseSimple]
+    split
+    · rename_i h; simp only [evalSimple]; exact (hY f st h).symm
+    · rfl
+
+/-- a program with extra calls that have no effect on the store computes what the program without them computes -/
+theorem eval_erase (E : Env σ) (isY : Nat → Bool) (hY : ∀ f st, isY f = true → E.call f st = st) :
+    ∀ {s st g st'}, Eval E s st g st' → Eval E (eraseCalls isY s) st g st' := by
+  intro s st g st' h
+  induction h with
+  | skip => exact .skip
+  | act => exact .act
+  | @call f st =>
+    simp only [eraseCalls]
+    split
+    · rename_i h; rw [hY f st h]; exact .skip
+    · exact .call
+  | seqN _ _ ih1 ih2 => exact .seqN ih1 ih2
+  | seqA _ hne ih1 => exact .seqA ih1 hne
+  | iteT hc _ ih => exact .iteT hc ih
+  | iteF hc _ ih => exact .iteF hc ih
+  | block _ ih => exact .block ih
+  | brk => exact .brk
+  | cont => exact .cont
+  | ret => exact .ret
+  | sw _ ih => exact .sw ih
+  | loopDone hc => exact .loopDone hc
+  | loopAgain hc _ ha _ ih1 ih2 =>
+    refine .loopAgain hc ih1 ha ?_
+    rw [evalSimple_erase E isY hY]
+    exact ih2
+  | loopExit hc _ ha ih1 => exact .loopExit hc ih1 ha
+  | loopProp hc _ ha ih1 => exact .loopProp hc ih1 ha
+
 end GV.Ctrl
